@@ -7,19 +7,41 @@ import (
 )
 
 type Plan struct {
-	Prop      string         `json:"prop"`
-	CacheKind string         `json:"cache"`
-	CacheCap  int            `json:"cache_cap,omitempty"`
-	LossPm    int            `json:"f5_store_lost_pm,omitempty"`
-	MissPm    int            `json:"f6_load_miss_pm,omitempty"`
-	FlushPm   int            `json:"f7_flush_pm,omitempty"`
-	Clients   [][]Call       `json:"clients"`
-	Churn     int            `json:"churn,omitempty"`           // C12: extra calls executed before handed-out strings are re-read
-	Cold      bool           `json:"cold_process,omitempty"`    // run as the first thing of a fresh OS process: every lazily filled package-level table of the library is cold
-	Bystander int            `json:"bystander_ops,omitempty"`   // C11: an extra client works on an LRU cache of its own meanwhile (instances must not share state)
-	Young     bool           `json:"young_reference,omitempty"` // the references are cross-checked against a brand-new oracle process that sees the calls in reverse order
-	FreshAt   int            `json:"fresh_at,omitempty"`        // 1-based index of the call of client 0 whose reference is recomputed in a fresh OS process of its own (0: none)
-	Cfg       simsync.Config `json:"cfg"`
+	Prop       string         `json:"prop"`
+	CacheKind  string         `json:"cache"`
+	CacheCap   int            `json:"cache_cap,omitempty"`
+	LossPm     int            `json:"f5_store_lost_pm,omitempty"`
+	MissPm     int            `json:"f6_load_miss_pm,omitempty"`
+	FlushPm    int            `json:"f7_flush_pm,omitempty"`
+	Clients    [][]Call       `json:"clients"`
+	Churn      int            `json:"churn,omitempty"`           // C12: extra calls executed before handed-out strings are re-read
+	Cold       bool           `json:"cold_process,omitempty"`    // run as the first thing of a fresh OS process: every lazily filled package-level table of the library is cold
+	Bystander  int            `json:"bystander_ops,omitempty"`   // C11: an extra client works on an LRU cache of its own meanwhile (instances must not share state)
+	Young      bool           `json:"young_reference,omitempty"` // the references are cross-checked against a brand-new oracle process that sees the calls in reverse order
+	FreshAt    int            `json:"fresh_at,omitempty"`        // 1-based index of the call of client 0 whose reference is recomputed in a fresh OS process of its own (0: none)
+	Repeat     int            `json:"repeat,omitempty"`          // > 1: the calls of client 0 from RepeatFrom on are executed that many times in all (long histories: counters that wrap, tables that fill)
+	RepeatFrom int            `json:"repeat_from,omitempty"`
+	Cfg        simsync.Config `json:"cfg"`
+}
+
+// expanded returns the calls client c really executes (Repeat unrolled, sequence numbers put into the tags that ask for one).
+func (p *Plan) expanded(c int) []Call {
+	calls := p.Clients[c]
+	if c != 0 || p.Repeat <= 1 || p.RepeatFrom >= len(calls) {
+		return calls
+	}
+	cyc := calls[p.RepeatFrom:]
+	out := make([]Call, 0, len(calls)+(p.Repeat-1)*len(cyc))
+	out = append(out, calls[:p.RepeatFrom]...)
+	for it := 0; it < p.Repeat; it++ {
+		for _, cl := range cyc {
+			if cl.TagSeq {
+				cl.Tag = fmt.Sprintf("%s%d", cl.Tag, it)
+			}
+			out = append(out, cl)
+		}
+	}
+	return out
 }
 
 func (p *Plan) NCalls() int {
@@ -543,5 +565,59 @@ func GenC11(r *detsim.Rand, tier string) *Plan {
 	if !big && r.Chance(1, 12) {
 		coldWide(r, p)
 	}
+	return p
+}
+
+// ---------------------------------------------------------------- long histories (one per worker and batch)
+
+// NLong is the number of long histories of C08 / C12: the driver gives each of its 16 workers one.
+const NLong = 16
+
+// GenLong returns the n-th long history: a short prefix, then ONE or two calls repeated more than 2^16 times by one client
+// whose pools recycle perfectly (LIFO, no faults), i.e. the same pooled objects are reused more than 65536 times and, for
+// C08, more than 65536 tag names nobody used before are seen by the process. Everything a library counts in 16 bits - a
+// generation stamp on a pooled object, an interned id - has wrapped by the end (seeded C12o, C08o).
+func GenLong(prop string, n uint64) *Plan {
+	r := detsim.NewRand(0x10c6 ^ n*0x9E3779B97F4A7C15)
+	p := &Plan{Prop: prop}
+	p.Cfg = simsync.Config{Policy: simsync.PolicyUniform, StallTask: -1, Pool: simsync.PoolLIFO, StepCap: 400000000}
+	p.CacheKind, p.CacheCap = CacheLRU, []int{2, 3, 8}[r.Intn(3)]
+	if r.Chance(1, 3) {
+		p.CacheKind = CacheMap
+	}
+	p.Repeat = 65536 + 40 + r.Intn(400)
+	var calls []Call
+	if prop == "C08" {
+		// the same value under the default tag and under a brand-new tag name, again and again
+		t := []int{0, 1, 2, 5, 11}[r.Intn(5)] // Pay, User, Item, OnePair, Order: types with rules under several tags
+		v := r.Intn(12)
+		calls = append(calls, Call{Entry: EValidate, Type: t, Val: v, Tag: "v2"})
+		p.RepeatFrom = len(calls)
+		calls = append(calls, Call{Entry: EValidate, Type: t, Val: v})
+		calls = append(calls, Call{Entry: []string{EValidate, EStructForFn}[r.Intn(2)], Type: t, Val: v, Tag: "zz", TagSeq: true})
+	} else {
+		// a call that brings its own function for a rule name (and a rule override), then calls that use the name without
+		switch n % 4 {
+		case 0, 1:
+			calls = append(calls, Call{Entry: EStructForFns, Type: 6, Val: r.Intn(8), Fn: []int{1, 4}[r.Intn(2)], Rule: r.Intn(3)}) // Cust: Code `odd`
+			p.RepeatFrom = len(calls)
+			calls = append(calls, Call{Entry: []string{EStruct, EValidate}[r.Intn(2)], Type: 6, Val: r.Intn(8)})
+		case 2:
+			calls = append(calls, Call{Entry: EVarChain, Val: 1 + r.Intn(3), Rule: 6, Fn: 1}) // rule "odd" with a function of the call's own
+			p.RepeatFrom = len(calls)
+			calls = append(calls, Call{Entry: EVar, Val: 1 + r.Intn(3), Rule: 6}) // "odd" is unknown without it
+		case 3:
+			types := []int{0, 1, 2, 6, 9}
+			calls = append(calls, genAnyCall(r, types), genAnyCall(r, types), genAnyCall(r, types))
+			p.RepeatFrom = len(calls)
+			calls = append(calls, genAnyCall(r, types))
+			if r.Chance(1, 2) {
+				calls = append(calls, genAnyCall(r, types))
+				p.Repeat = p.Repeat/2 + 40
+			}
+		}
+	}
+	p.Clients = [][]Call{calls}
+	p.Cfg.Clock = simsync.ClockMode(n % 4)
 	return p
 }
